@@ -161,7 +161,16 @@ class Ctx:
             "wall_s": round(time.time() - self.t0, 2),
             "violations": len(self.violations),
         }
-        if not self.selftest:
+        # evidence describes /repo itself: a run against a scratch copy (PYTHONPATH override used by
+        # tools/try_mutants.sh for seeded changes) must not overwrite it
+        try:
+            import msdm
+            src = str(Path(msdm.__file__).resolve())
+        except Exception:
+            src = "?"
+        if not self.selftest and not src.startswith("/repo/"):
+            print(f"[{self.pid}] msdm imported from {src}: evidence/{self.pid}.json left untouched", flush=True)
+        elif not self.selftest:
             edir = VERIF / "evidence"
             edir.mkdir(exist_ok=True)
             (edir / f"{self.pid}.json").write_text(json.dumps(ev, indent=1, default=str))
